@@ -32,6 +32,27 @@ def random_cases(rng, count, tag="rnd", **kw):
     return out
 
 
+def word_loop_cases(rng, count):
+    """within-word expressions whose automaton loops back into its start state (the word begins with an optional
+    repetition) next to states that differ from the start only in that — the shapes on which a second minimisation,
+    or a confusion of the start state with the dead state, changes the language"""
+    out = []
+    for i in range(count):
+        vals = rng.sample(["a", "b", "c", "d", "ro", "rw", "none", "x1"], 4)
+        sep = rng.choice([",", ":", "+", "/"])
+        k = i % 4
+        if k == 0:
+            w = f"[(({vals[0]}|{vals[1]})({sep}))...]({vals[0]}|{vals[2]}){vals[3]}"
+        elif k == 1:
+            w = f"[({vals[0]})...]([{vals[1]}])..."
+        elif k == 2:
+            w = f"[(({vals[0]}|{vals[1]})({sep}))...]({vals[1]}|{vals[2]})(=)(yes|no)"
+        else:
+            w = f"[({vals[0]}{sep})...]({vals[0]}|{vals[1]}{vals[2]})[{sep}{vals[3]}]"
+        out.append((f"wordloop:{i}", rng.choice(core.SHELLS), f"cmd {w} next;\n"))
+    return out
+
+
 def run_batches(ctx, cases, on_case, batch=1500):
     """analyse in batches; calls on_case(a) for each analysis"""
     for i in range(0, len(cases), batch):
@@ -59,5 +80,8 @@ def standard_cases(ctx, prop):
     rnd = random_cases(rng, 40000 if ctx.thorough() else 2000)
     ctx.count("random", len(rnd))
     cases += rnd
+    wl = word_loop_cases(rng, 400 if ctx.thorough() else 60)
+    ctx.count("word-loops", len(wl))
+    cases += wl
     ctx.extra["exhaustive_small_nodes"] = n
     return cases
